@@ -29,11 +29,12 @@ bool image_ok(const ref::TA& A, const ref::TA& R, const std::map<int,int>& h)
 // bounded brute-force search for a partial map h: Q_A -> Q_R
 bool search_image(const ref::TA& A, const ref::TA& R)
 {
-	std::vector<int> qa(A.states().begin(), A.states().end());
-	std::vector<int> qr(R.states().begin(), R.states().end());
+	const std::set<int> sa = A.states(), sr = R.states();      // (states() returns by value: never take begin()/end() of two calls)
+	std::vector<int> qa(sa.begin(), sa.end());
+	std::vector<int> qr(sr.begin(), sr.end());
 	qr.push_back(-1);
 	std::vector<size_t> pick(qa.size(), 0);
-	if (qa.empty()) return R.states().empty();
+	if (qa.empty()) return sr.empty();
 	for (;;) {
 		std::map<int,int> h;
 		for (size_t i = 0; i < qa.size(); ++i) if (qr[pick[i]] >= 0) h[qa[i]] = qr[pick[i]];
